@@ -164,6 +164,9 @@ def run_topology(t, col, depths, flavours=None, future=False, mods=None):
 
 def plan(tier, seed):
     shards = [{"kind": "n1"}, {"kind": "aliases"}, {"kind": "aliasedges", "seed": seed}]
+    # cycles that pass through a plain (by-value) field of a member class: `A.holder: Holder`, `Holder.a: A | None`
+    k = 4 if tier == "quick" else 16
+    shards += [{"kind": "memberfield", "mod": k, "rem": i, "stride": 24 if tier == "quick" else 1, "seed": seed} for i in range(k)]
     if tier == "quick":
         for i in range(8):
             shards.append({"kind": "n2", "mod": 8 * 12, "rem": (i * 12 + seed) % 96})
@@ -210,6 +213,16 @@ def _run(shard, col):
                     spec = tp.to_spec(t, root, root_emb)
                     check_program(spec, col, depths, {"topology": tp.describe(t), "root_class": root, "embedding": root_emb})
         col.exhaustive_done = True
+    elif shard["kind"] == "memberfield":
+        on_cycle = lambda t: any(k == "direct" and i in tp.reachable(t, tt) for i, es in enumerate(t) for tt, k in es)  # noqa: E731
+        small = [t for t in tp.enumerate_topologies(2, kinds=tp.ALL_KINDS, max_out=1) if on_cycle(t)]
+        big = [t for t in tp.enumerate_topologies(2, kinds=tp.ALL_KINDS, max_out=2) if on_cycle(t) and t not in small]
+        big = [t for i, t in enumerate(big) if (i + shard["seed"]) % shard["stride"] == 0]
+        for i, t in enumerate(small + big):
+            if i % shard["mod"] == shard["rem"]:
+                col.label("topology:by-value-field-on-cycle")
+                run_topology(t, col, depths)
+        col.exhaustive_done = True
     elif shard["kind"] == "n2":
         for i, t in enumerate(tp.enumerate_topologies(2)):
             if i % shard["mod"] == shard["rem"]:
@@ -222,7 +235,7 @@ def _run(shard, col):
             classes = []
             for i in range(n):
                 k = draw(st.integers(1, 2))
-                classes.append(tuple((draw(st.integers(0, n - 1)), draw(st.sampled_from(tp.CYCLE_KINDS))) for _ in range(k)))
+                classes.append(tuple((draw(st.integers(0, n - 1)), draw(st.sampled_from(tp.CYCLE_KINDS + ["direct"]))) for _ in range(k)))
             return tuple(classes), [draw(st.sampled_from(tp.FLAVOURS)) for _ in range(n)], draw(st.booleans()), [draw(st.integers(0, 1)) for _ in range(n)]
 
         # generate first, check afterwards: Hypothesis manages the recursion limit while a test function runs,
@@ -231,7 +244,7 @@ def _run(shard, col):
         core.drive(t3(), cases.append, n=shard["n"], seed=shard["seed"], col=col)
         sys.setrecursionlimit(30000)
         for t, fl, fut, mods in cases:
-            if len(tp.reachable(t, 0)) != 3 or not tp.has_cycle(t, 0):
+            if len(tp.reachable(t, 0)) != 3 or not tp.has_cycle(t, 0) or not tp.cycle_is_guarded(t):
                 continue
             if col.out_of_time():
                 break
